@@ -119,7 +119,7 @@ def check(model: Model, run: Run) -> None:
     if len(ploc.unpacked_from_call('UpdateCollection.split')) != 3:
         run.cannot('split() unpacking not found in _parse_payload')
         return
-    taw_ifs = [n for n in walk_no_nested(pp.node) if isinstance(n, ast.If) and 'INTERNAL_TREAT_AS_WITHDRAW' in norm(n.test)]
+    taw_ifs = [n for n in walk_no_nested(pp.node) if isinstance(n, ast.If) and 'INTERNAL_TREAT_AS_WITHDRAW' in ploc.expand(n.test)]
     taw_stmts = {id(x) for n in taw_ifs for b in n.body for x in ast.walk(b)}
 
     def seed(e: ast.AST) -> tuple[str, ...]:
@@ -316,6 +316,32 @@ def check(model: Model, run: Run) -> None:
                     run.ok('merge_attributes: %s' % norm(n), 'guarded')
     if n_sl == 0:
         run.ok('merge_attributes', 'no negative variable slice')
+    # a slice of the sequence (set) part is measured with the lengths of the sequence (set) parts
+    from ..labels import ReachDefs
+
+    rd = ReachDefs(mg.node)
+    by_id = {id(st): st for st in ast.walk(mg.node)}
+    for n in walk_no_nested(mg.node):
+        if not (isinstance(n, ast.Subscript) and isinstance(n.slice, ast.Slice) and isinstance(n.value, ast.Attribute) and n.value.attr in ('as_seq', 'as_set') and n.slice.upper is not None):
+            continue
+        kind = n.value.attr
+        measured = set()
+        understood = True
+        for nm in [x for x in ast.walk(n.slice.upper) if isinstance(x, ast.Name)]:
+            ids = rd.reaching(nm.id, n) or frozenset()
+            for i in ids:
+                st = by_id.get(i)
+                v = getattr(st, 'value', None)
+                if isinstance(v, ast.Call) and dotted(v.func) == 'len' and v.args and isinstance(v.args[0], ast.Attribute):
+                    measured.add(v.args[0].attr)
+                else:
+                    understood = False
+        for c in ast.walk(n.slice.upper):
+            if isinstance(c, ast.Call) and dotted(c.func) == 'len' and c.args and isinstance(c.args[0], ast.Attribute):
+                measured.add(c.args[0].attr)
+        if not understood or not measured:
+            continue
+        run.check(measured == {kind}, mg.qualname, 'slice of .%s bounded by the lengths of %s' % (kind, sorted('.' + m for m in measured)), mg.loc(n), 'RFC 6793 4.2.3: the leading ASNs kept from AS_PATH are counted per segment kind; cutting the AS_SET with the AS_SEQUENCE lengths keeps AS_TRANS placeholders or drops members')
 
     # ------------------------------------------------------------------ R4 next hop attribution
     run.rule('C02.R4', 'next hop attribution: routes of the NLRI section get the NEXT_HOP attribute of the same UPDATE; MP_REACH routes get the next hop bytes of that attribute', floor=2)
@@ -425,3 +451,9 @@ def check(model: Model, run: Run) -> None:
             'the merged path contains the 4-byte ASNs of AS4_PATH; packed 2 bytes wide ASN.pack_asn raises struct.error for '
             'AS_PATH (23456 2) + AS4_PATH (70000 2) from a 2-byte peer, which the reactor turns into NOTIFICATION 1/0',
         )
+
+    # ------------------------------------------------------------------ R7 the shared cached collection keeps its routes
+    run.rule('C02.R7', 'the attribute collection served again from the one-entry block cache still holds what _parse_payload takes out of it: a block carrying MP_REACH / MP_UNREACH is never cached (shared with C19.R1b)', floor=1)
+    from .C19 import cache_guard_rule
+
+    cache_guard_rule(model, run, folder)
